@@ -1,4 +1,4 @@
-"""C06 -- signature changes keep calls bound to the same values (R06.1-R06.2)."""
+"""C06 -- signature changes keep calls bound to the same values (R06.1-R06.5)."""
 from __future__ import annotations
 
 import ast
@@ -17,7 +17,7 @@ EXPLANATION = (
     "but valid call into an internal AssertionError).  R06.3: inside a changer, the call-side mapping drops a component "
     "only under the same `self.index` selection under which the definition side drops the corresponding component "
     "(sibling agreement).  R06.4: the call-site loop analyses every resource, or skips one only on a test of every "
-    "finder name.  The positional/keyword mapping arithmetic and the changer "
+    "finder name.  R06.5: introduce-parameter (which rewrites no call site) only appends to the parameter list.  The positional/keyword mapping arithmetic and the changer "
     "pipeline are not decided."
 )
 ASSUMPTIONS = ["alignment rule of the language reference as recorded in sa/grammar.py DEFAULT_ALIGNMENT",
@@ -146,6 +146,36 @@ def check(ctx, res) -> None:
                         f"{c.name}.change_argument_mapping drops mapping.{mcomp} under the index selection {sorted(m_sel)} while change_definition_info drops "
                         f"{dcomp} under {[sorted(x) for x in d_sel]}: call sites lose the values bound to a parameter that the definition keeps")
     res.floor("R06.3", "changer components removed on the call side", n3, 1)
+
+    # ---- R06.5 introduce-parameter never rewrites call sites, so the only position at which it may add the new
+    # (defaulted) parameter without re-binding existing positional arguments is the END of the positional parameters
+    ip = idx.need_class("rope.refactor.introduce_parameter.IntroduceParameter")
+    rewrites_calls = any(isinstance(x, ast.Attribute) and x.attr in ("ArgumentMapping", "CallInfo", "ChangeSignature", "ArgumentAdder")
+                         for m in ip.methods.values() for x in ast.walk(m.node))
+    n5 = 0
+    for mname, m in sorted(ip.methods.items()):
+        alias = set()
+        for x in walk_local(m.node):
+            if isinstance(x, ast.Assign) and isinstance(x.value, ast.Attribute) and x.value.attr == "args_with_defaults":
+                alias |= {t.id for t in x.targets if isinstance(t, ast.Name)}
+        for st in walk_local(m.node):
+            if not isinstance(st, ast.stmt):
+                continue
+            for e in mutated_exprs(st):
+                if (isinstance(e, ast.Attribute) and e.attr == "args_with_defaults") or (isinstance(e, ast.Name) and e.id in alias):
+                    n5 += 1
+                    calls = [c for c in calls_in(st) if isinstance(c.func, ast.Attribute) and c.func.value is e]
+                    back = bool(calls) and all(c.func.attr == "append" for c in calls)
+                    if rewrites_calls:
+                        res.undecided("R06.5", f"IntroduceParameter.{mname}|position", f"{m.unit.rel}:{st.lineno}",
+                                      "introduce-parameter now refers to the call-rewriting machinery; the append-only argument no longer applies")
+                        continue
+                    res.add("R06.5", f"IntroduceParameter.{mname}|position", back, f"{m.unit.rel}:{st.lineno}",
+                            "the new parameter is appended after all existing positional parameters" if back else
+                            f"IntroduceParameter.{mname} changes the parameter list with `{ast.unparse(st)[:60]}` (not a plain append) although it never "
+                            "rewrites call sites: a call that passes a later parameter positionally now binds that value to the new parameter",
+                            function=m.qualname)
+    res.floor("R06.5", "parameter-list mutations in IntroduceParameter", n5, 1)
 
     # ---- R06.4 call-site discovery looks at every resource: a path through the resources loop that skips the
     # occurrence analysis is only sound if its condition rules out every name the finders search for
